@@ -81,8 +81,11 @@ def discharge(obligations, timeout_ms=10000, procs=None, use_cvc5=True, quick_ms
             hard.append(i)
     if hard:
         jobs = [(str(i), obligations[i].smt2(), timeout_ms, True) for i in hard]
-        with mp.get_context("fork").Pool(min(procs, len(jobs))) as pool:
-            outs = pool.map(_solve_one, jobs, chunksize=1)
+        if procs == 1:
+            outs = [_solve_one(j) for j in jobs]
+        else:
+            with mp.get_context("fork").Pool(min(procs, len(jobs))) as pool:
+                outs = pool.map(_solve_one, jobs, chunksize=1)
         still = []
         for (idx, res, model, dt, reason) in outs:
             i = int(idx)
@@ -96,8 +99,11 @@ def discharge(obligations, timeout_ms=10000, procs=None, use_cvc5=True, quick_ms
                 still.append(i)
         if still and use_cvc5 and os.path.exists("/usr/bin/cvc5"):
             jobs = [(str(i), obligations[i].smt2(), timeout_ms) for i in still]
-            with mp.get_context("fork").Pool(min(procs, len(jobs))) as pool:
-                outs = pool.map(_cvc5_one, jobs, chunksize=1)
+            if procs == 1:
+                outs = [_cvc5_one(j) for j in jobs]
+            else:
+                with mp.get_context("fork").Pool(min(procs, len(jobs))) as pool:
+                    outs = pool.map(_cvc5_one, jobs, chunksize=1)
             for idx, res, dt in outs:
                 i = int(idx)
                 ob = obligations[i]
